@@ -153,7 +153,12 @@ def chained_shapes(rng, n):
             lambda: [N("match", p=N("rx", tree=("op", ("set", [("ch", 97), ("ch", 99)], True), "+"), binary=False)), L(b"a")],
         ]
         shape = rng.random()
-        if shape < 0.7:
+        if shape < 0.12:
+            # a handler that begins with actions and can then match nothing, entered by a mismatch or by running out of space
+            ovf = rng.choice([lambda: N("appendm", var="s", p=N("lit", bs=b"abc", form="s")), lambda: N("appendm", var="s", p=N("rx", tree=("op", ("ch", 97), "+"), binary=False))])
+            handler = actions() + [rng.choice(blocks[:2])()] + rng.choice([[], [L(b"c")]])
+            body = [N("try", body=[L(b"<"), ovf(), L(b"q")], reasons=rng.choice([None, ["outofspace"], ["nomatch", "outofspace"]]), handler=handler), N("hook", name="t"), L(b"!")]
+        elif shape < 0.7:
             body = [L(b"<"), rng.choice(blocks)()] + actions() + rng.choice(nexts)() + [N("hook", name="t"), L(b"!")]
         elif shape < 0.85:
             body = [N("case", greedy=False, clauses=[
